@@ -1029,6 +1029,8 @@ def unit_pp_arith(ctx):
         big = rng.random() < 0.12
         n = rng.randint(0, 20 if big else nmax)
         m = rng.randint(0, 20 if big else nmax)
+        if rng.random() < 0.3:
+            m = n
         alias = rng.randrange(4)
         sel = rng.random()
         a = pp_val(rng, n, B)
@@ -1097,7 +1099,7 @@ def unit_pp_arith(ctx):
             b = bt
             if fn == "ppDiv" and n < m:
                 n = m + (n % 3)
-                a = pp_val(rng, n, B) if False else (a | (q0 << (B * 0))) & ((1 << (n * B)) - 1)
+                a = (a ^ (q0 << (m * B))) & ((1 << (n * B)) - 1)
             if sel < 0.25 and n >= m:
                 # a = q*b + r with deg r = deg b - 1 (maximal remainder), quotient of full length
                 r1 = (r0 & ((1 << (b.bit_length() - 1)) - 1)) | (1 << (b.bit_length() - 2)) if b.bit_length() > 1 else 0
@@ -1106,6 +1108,10 @@ def unit_pp_arith(ctx):
                 a = b & ((1 << (n * B)) - 1)
             if b == 1 and m == 1:
                 b = 3
+            if fn == "ppDiv" and b >> ((m - 1) * B) == 1:
+                # deg(b) multiple of B: ppDiv writes q[n - m + 1] (one word past the quotient) on the examined
+                # tree -- demonstrated, in bounded number, by unit_pp_edge; the bulk keeps to the other divisors
+                b |= 2 << ((m - 1) * B)
             inplace = alias == 0 and n >= m
             rn = fn == "ppDiv" and alias == 1 and n > m          # header-literal remainder size [n]r
             cls = "%s:%s:%s" % (fn, "n<m" if n < m else "n=m" if n == m else "n>m",
@@ -1138,6 +1144,572 @@ def unit_pp_arith(ctx):
     ctx.note("pp_arith", hist)
 
 
+def odd_parts(a, b):
+    """a / x^s, b / x^s with s maximal"""
+    s = min((a & -a).bit_length(), (b & -b).bit_length()) - 1
+    return a >> s, b >> s
+
+
+def exgcd_domain(a, b):
+    """Inputs on which ppExGCD of the examined tree does not trip over its own ASSERTs: after removing the
+    common power of x both polynomials have a constant term (see unit_pp_edge for the other inputs)."""
+    aa, bb = odd_parts(a, b)
+    return bool(aa & 1 and bb & 1)
+
+
+def unit_pp_small(ctx):
+    """all pairs of one-word polynomials of degree <= maxdeg: mul/div/mod/gcd/exgcd/mulmod/invmod/divmod
+    against the bit-vector model; one case per a (all b inside), buffers of exactly one word reused"""
+    lib, P = ctx.lib, ctx.params
+    W, B = lib.W, lib.B
+    D = P["maxdeg"]
+    chunk, nchunks = P["chunk"], P["nchunks"]
+    N = 1 << (D + 1)
+    pa, pb = lib.alloc(W), lib.alloc(W)
+    c2, q1, r1, d1, da1, db1, t1 = lib.alloc(2 * W), lib.alloc(W), lib.alloc(W), lib.alloc(W), lib.alloc(W), lib.alloc(W), lib.alloc(W)
+    pa2 = lib.alloc(W)
+    st = {f: pp_stack(lib, f, 1, 1) for f in ("ppMul", "ppDiv", "ppMod", "ppGCD", "ppExGCD")}
+    for f in ("ppMulMod", "ppInvMod", "ppDivMod", "ppSqrMod"):
+        st[f] = pp_stack(lib, f, 1)
+    fill = lib.fill
+    ms = ctypes.memset
+    rdw, wr = lib.rdw, lib.wr
+    skipped_exgcd = 0
+    for a in range(N):
+        if a % nchunks != chunk:
+            continue
+        if not ctx.case(["small", D, a], "pp-small:deg<=%d" % D):
+            continue
+        wr(pa, a.to_bytes(W, "little"))
+        acc = []
+        for b in range(1, N):
+            wr(pb, b.to_bytes(W, "little"))
+            ms(c2, fill, 2 * W)
+            lib.ppMul(c2, pa, 1, pb, 1, st["ppMul"])
+            prod = rdw(c2, 2)
+            if prod != G.mul(a, b):
+                pbad(ctx, "ppMul", "value", {"a": a, "b": b, "got": prod})
+            qe, re_ = G.divmod_(a, b)
+            if b != 1:
+                ms(q1, fill, W); ms(r1, fill, W)
+                lib.ppDiv(q1, r1, pa, 1, pb, 1, st["ppDiv"])
+                gq, gr = rdw(q1, 1), rdw(r1, 1)
+                if (gq, gr) != (qe, re_):
+                    pbad(ctx, "ppDiv", "value", {"a": a, "b": b, "q": gq, "r": gr})
+                ms(r1, fill, W)
+                lib.ppMod(r1, pa, 1, pb, 1, st["ppMod"])
+                gm = rdw(r1, 1)
+                if gm != re_:
+                    pbad(ctx, "ppMod", "value", {"a": a, "b": b, "r": gm})
+            else:
+                gq = gr = gm = None
+            acc.append((prod, gq, gr, gm))
+            if a:
+                g = G.gcd(a, b)
+                ms(d1, fill, W)
+                lib.ppGCD(d1, pa, 1, pb, 1, st["ppGCD"])
+                gd = rdw(d1, 1)
+                if gd != g:
+                    pbad(ctx, "ppGCD", "value", {"a": a, "b": b, "got": gd, "expected": g})
+                acc.append(gd)
+                if exgcd_domain(a, b):
+                    ms(d1, fill, W); ms(da1, fill, W); ms(db1, fill, W)
+                    lib.ppExGCD(d1, da1, db1, pa, 1, pb, 1, st["ppExGCD"])
+                    gd, gda, gdb = rdw(d1, 1), rdw(da1, 1), rdw(db1, 1)
+                    if gd != g or G.mul(a, gda) ^ G.mul(b, gdb) != g:
+                        pbad(ctx, "ppExGCD", "value", {"a": a, "b": b, "d": gd, "da": gda, "db": gdb, "gcd": g})
+                    acc.append((gda, gdb))
+                else:
+                    skipped_exgcd += 1
+            # modular operations modulo b (deg b >= 1), operands a mod b and (a*x + 1) mod b
+            if b > 1:
+                u, v = re_, G.mod((a << 1) ^ 1, b)
+                wr(pa2, u.to_bytes(W, "little"))
+                wr(t1, v.to_bytes(W, "little"))
+                ms(r1, fill, W)
+                lib.ppMulMod(r1, pa2, t1, pb, 1, st["ppMulMod"])
+                g1 = rdw(r1, 1)
+                if g1 != G.mulmod(u, v, b):
+                    pbad(ctx, "ppMulMod", "value", {"a": u, "b": v, "mod": b, "got": g1})
+                ms(r1, fill, W)
+                lib.ppSqrMod(r1, pa2, pb, 1, st["ppSqrMod"])
+                g2 = rdw(r1, 1)
+                if g2 != G.mulmod(u, u, b):
+                    pbad(ctx, "ppSqrMod", "value", {"a": u, "mod": b, "got": g2})
+                acc.append((g1, g2))
+                if b & 1:
+                    inv = G.invmod(u, b) if G.gcd(u, b) == 1 else 0       # pp.h: gcd != 1 => 0
+                    ms(r1, fill, W)
+                    lib.ppInvMod(r1, pa2, pb, 1, st["ppInvMod"])
+                    g3 = rdw(r1, 1)
+                    if g3 != inv:
+                        pbad(ctx, "ppInvMod", "value" if inv else "gcd!=1", {"a": u, "mod": b, "got": g3, "expected": inv})
+                    ms(r1, fill, W)
+                    lib.ppDivMod(r1, t1, pa2, pb, 1, st["ppDivMod"])
+                    g4 = rdw(r1, 1)
+                    e4 = G.mulmod(v, inv, b) if inv else 0
+                    if g4 != e4:
+                        pbad(ctx, "ppDivMod", "value" if inv else "gcd!=1", {"divident": v, "a": u, "mod": b, "got": g4, "expected": e4})
+                    acc.append((g3, g4))
+        ctx.digest(acc)
+        ctx.count(N - 2, "pp-small:pairs")
+    lib.release()
+    ctx.note("pp_small_exgcd_pairs_outside_domain", skipped_exgcd)
+
+
+def trinomials(B):
+    """(m, k) admissible for ppRedTrinomial: m % 8 != 0, k > 0, m - k >= B"""
+    out = []
+    for m in (B + 1, B + 2, B + 7, 2 * B - 1, 2 * B + 1, 2 * B + 3, 3 * B - 3, 3 * B + 1, 97, 127, 159, 167, 191, 233, 257, 367, 409,
+              4 * B + 5, 5 * B - 1, 6 * B + 1, 9 * B - 1, 9 * B + 3, 12 * B - 1):
+        if m % 8 == 0 or m <= B:
+            continue
+        ks = {1, 2, B - 1, B, B + 1, m - B, m - B - 1, m - 2 * B, m - 2 * B + 1, (m - B) // 2, 33, 63, 74, 87}
+        for k in sorted(ks):
+            if 0 < k and m - k >= B:
+                out.append((m, k))
+    return out
+
+
+def pentanomials(B):
+    """(m, k, l, l1): k > l > l1 > 0, m - k >= B, k < B"""
+    out = []
+    for m in (B + 3, B + 31, 2 * B - 1, 2 * B, 2 * B + 1, 128, 163, 173, 192, 256, 283, 307, 431, 571, 3 * B, 4 * B - 1, 5 * B + 1, 9 * B, 12 * B):
+        for (k, l, l1) in ((3, 2, 1), (7, 2, 1), (7, 6, 3), (12, 7, 5), (10, 5, 2), (B - 1, B - 2, B - 3), (B - 1, 2, 1), (B - 1, B // 2, 1), (B // 2, 3, 1)):
+            if k < B and m - k >= B and k > l > l1 > 0:
+                out.append((m, k, l, l1))
+    return out
+
+
+def unit_pp_mod(ctx):
+    """ppGCD, ppExGCD, ppMulMod, ppSqrMod, ppInvMod, ppDivMod, ppRed, ppRedTrinomial, ppRedPentanomial, ppRedBelt"""
+    lib, rng, P = ctx.lib, ctx.rng, ctx.params
+    W, B = lib.W, lib.B
+    nmax = P.get("nmax", 12)
+    tris, pents = trinomials(B), pentanomials(B)
+    hist = {}
+    FN = ("ppGCD", "ppExGCD", "ppMulMod", "ppSqrMod", "ppInvMod", "ppDivMod", "ppRed", "ppRedTrinomial", "ppRedPentanomial", "ppRedBelt")
+    for it in range(P["cases"]):
+        fn = FN[it % len(FN)]
+        n, m = rng.randint(1, nmax), rng.randint(1, nmax)
+        sel, sel2 = rng.random(), rng.random()
+        a, b = pp_val(rng, n, B), pp_val(rng, m, B)
+        g = pp_val(rng, max(1, min(n, m) // 2), B)
+        md = pp_top(rng, n, B)
+        x1, x2 = pp_val(rng, n, B), pp_val(rng, n, B)
+        big = rng.getrandbits(64 * 40)
+        ti = rng.randrange(1 << 30)
+        if fn in ("ppGCD", "ppExGCD"):
+            # operands with a planted common factor in 40% of the cases
+            if sel < 0.4 and g:
+                hn, hm = max(1, n * B - g.bit_length()), max(1, m * B - g.bit_length())
+                a = G.mul(g, a & ((1 << hn) - 1) or 1)
+                b = G.mul(g, b & ((1 << hm) - 1) or 1)
+            a, b = a or 1, b or 1
+            if sel2 < 0.1:
+                b = a & ((1 << (m * B)) - 1) or 1
+            if fn == "ppExGCD" and not exgcd_domain(a, b):
+                # make both cofactors odd after the common power of x is removed (see exgcd_domain)
+                sa, sb = (a & -a).bit_length() - 1, (b & -b).bit_length() - 1
+                s0 = min(sa, sb)
+                a, b = (a >> sa) << s0, (b >> sb) << s0
+            if fn == "ppExGCD" and n < m:
+                # n < m: ppExGCD copies m words into [min(n, m)]d on the examined tree (heap overflow, see
+                # unit_pp_edge); the bulk keeps to n >= m
+                a, b, n, m = b, a, m, n
+            if a >> (n * B) or b >> (m * B):
+                raise Harness("pp_mod generator: operand too long")
+            d_exp = G.gcd(a, b)
+            cls = "%s:%s:%s" % (fn, "n=m" if n == m else "n<m" if n < m else "n>m", "gcd=1" if d_exp == 1 else "gcd>1")
+            if not ctx.case([fn, n, a, m, b], cls):
+                continue
+            pa, pb = lib.mkw(a, n), lib.mkw(b, m)
+            k = min(n, m)
+            d = lib.outw(k)
+            if fn == "ppGCD":
+                lib.ppGCD(d, pa, n, pb, m, pp_stack(lib, fn, n, m))
+                gd = lib.rdw(d, k)
+                ctx.digest(gd)
+                if gd != d_exp:
+                    pbad(ctx, fn, "value", {"a": a, "n": n, "b": b, "m": m, "got": gd, "expected": d_exp})
+            else:
+                da, db = lib.outw(m), lib.outw(n)
+                lib.ppExGCD(d, da, db, pa, n, pb, m, pp_stack(lib, fn, n, m))
+                gd, gda, gdb = lib.rdw(d, k), lib.rdw(da, m), lib.rdw(db, n)
+                ctx.digest(gd, gda, gdb)
+                if gd != d_exp:
+                    pbad(ctx, fn, "value", {"a": a, "n": n, "b": b, "m": m, "got": gd, "expected": d_exp})
+                elif G.mul(a, gda) ^ G.mul(b, gdb) != gd:
+                    pbad(ctx, fn, "bezout", {"a": a, "n": n, "b": b, "m": m, "d": gd, "da": gda, "db": gdb})
+        elif fn in ("ppMulMod", "ppSqrMod", "ppInvMod", "ppDivMod", "ppRed"):
+            if fn in ("ppInvMod", "ppDivMod"):
+                md |= 1
+                if md == 1:
+                    md = 7          # the zero ring GF(2)[x]/(1) is not driven (ppInvMod's own divident 1 is not < mod)
+            dm = md.bit_length() - 1
+            tcls = "top=1" if md >> ((n - 1) * B) == 1 else "topbit" if md >> (n * B - 1) else "top-other"
+            if fn in ("ppMulMod", "ppSqrMod"):
+                u, v = x1 & ((1 << dm) - 1), x2 & ((1 << dm) - 1)
+                if sel2 < 0.15:
+                    u = (1 << dm) - 1
+                if sel < 0.1:
+                    v = u
+                if not ctx.case([fn, n, u, v, md], "%s:%s" % (fn, tcls)):
+                    continue
+                pm, pu = lib.mkw(md, n), lib.mkw(u, n)
+                c = lib.outw(n)
+                if fn == "ppMulMod":
+                    pv = pu if sel < 0.1 else lib.mkw(v, n)
+                    lib.ppMulMod(c, pu, pv, pm, n, pp_stack(lib, fn, n))
+                    exp = G.mulmod(u, v, md)
+                else:
+                    lib.ppSqrMod(c, pu, pm, n, pp_stack(lib, fn, n))
+                    exp = G.mulmod(u, u, md)
+                got = lib.rdw(c, n)
+                ctx.digest(got)
+                if got != exp:
+                    pbad(ctx, fn, "not-reduced" if got.bit_length() > dm else "value", {"a": u, "b": v, "mod": md, "n": n, "got": got, "expected": exp})
+            elif fn in ("ppInvMod", "ppDivMod"):
+                # pp.h: a (and divident) < mod as numbers: the degree may equal deg(mod)
+                u, v = x1 % md, x2 % md
+                gpl = "gcd=1"
+                if sel < 0.25 and g > 1 and n > 1:
+                    # modulus and a with a planted common odd factor -> result 0
+                    g |= 1
+                    h = (pp_val(rng, 1, B, "dense") | 1) if False else (x2 | 1)
+                    h &= (1 << max(1, n * B - g.bit_length() - 1)) - 1
+                    md2 = G.mul(g, h | 1)
+                    if md2.bit_length() > (n - 1) * B and md2 & 1:
+                        md = md2
+                        dm = md.bit_length() - 1
+                        u = G.mul(g, x1 & ((1 << max(1, dm - g.bit_length())) - 1) or 1)
+                        v = x2 % md
+                        tcls = "top=1" if md >> ((n - 1) * B) == 1 else "topbit" if md >> (n * B - 1) else "top-other"
+                if sel2 < 0.1:
+                    u = 0
+                elif sel2 < 0.2:
+                    u = 1
+                if u >= md or v >= md:
+                    u, v = u % md, v % md
+                inv = None
+                um = G.mod(u, md)
+                if G.gcd(um, md) == 1 and (md > 1):
+                    inv = G.invmod(um, md)
+                else:
+                    gpl = "gcd>1"
+                dcl = "deg(a)=deg(mod)" if u.bit_length() == md.bit_length() else "deg(a)<deg(mod)"
+                if not ctx.case([fn, n, u, v, md], "%s:%s:%s:%s" % (fn, tcls, gpl, dcl)):
+                    continue
+                pm, pu = lib.mkw(md, n), lib.mkw(u, n)
+                c = lib.outw(n)
+                if fn == "ppInvMod":
+                    lib.ppInvMod(c, pu, pm, n, pp_stack(lib, fn, n))
+                    exp = inv if inv is not None else 0
+                else:
+                    lib.ppDivMod(c, lib.mkw(v, n), pu, pm, n, pp_stack(lib, fn, n))
+                    exp = G.mulmod(G.mod(v, md), inv, md) if inv is not None else 0
+                got = lib.rdw(c, n)
+                ctx.digest(got)
+                if got != exp:
+                    cat = "gcd!=1" if inv is None else "not-reduced" if got.bit_length() > dm and G.mod(got, md) == exp else "value"
+                    pbad(ctx, fn, cat, {"a": u, "divident": v, "mod": md, "n": n, "got": got, "expected": exp})
+            else:
+                if md == 1:
+                    md = 3              # mod = 1: see unit_pp_edge
+                tcls = "top=1" if md >> ((n - 1) * B) == 1 else tcls
+                u = big & ((1 << (2 * n * B)) - 1)
+                if sel < 0.2:
+                    u = G.mul(x1, x2)
+                if not ctx.case([fn, n, u, md], "ppRed:" + tcls):
+                    continue
+                pu = lib.mkw(u, 2 * n)
+                lib.ppRed(pu, lib.mkw(md, n), n, pp_stack(lib, fn, n))
+                got = lib.rdw(pu, n)
+                ctx.digest(got)
+                if got != G.mod(u, md):
+                    pbad(ctx, fn, "value", {"a": u, "mod": md, "n": n, "got": got, "expected": G.mod(u, md)})
+        elif fn == "ppRedTrinomial":
+            mm, k = tris[ti % len(tris)]
+            nw = (mm + B - 1) // B
+            u = big & ((1 << (2 * nw * B)) - 1)
+            if sel < 0.5:
+                # product of two reduced elements (the use in gf2.c)
+                u = G.mul(u & ((1 << mm) - 1), (u >> mm) & ((1 << mm) - 1))
+            f = (1 << mm) | (1 << k) | 1
+            if not ctx.case([fn, mm, k, u], "ppRedTrinomial:%s" % ("(m-k)%B=0" if (mm - k) % B == 0 else "(m-k)%B!=0")):
+                continue
+            bump(hist, "tri:m-k=B" if mm - k == B else "tri:m-k>B")
+            pu = lib.mkw(u, 2 * nw)
+            lib.ppRedTrinomial(pu, lib.mk(mm.to_bytes(8, "little") + k.to_bytes(8, "little")))
+            got = lib.rdw(pu, nw)
+            ctx.digest(got)
+            if got != G.mod(u, f):
+                pbad(ctx, fn, "not-reduced" if G.mod(got, f) == G.mod(u, f) else "value", {"m": mm, "k": k, "a": u, "got": got, "expected": G.mod(u, f)})
+        elif fn == "ppRedPentanomial":
+            mm, k, l, l1 = pents[ti % len(pents)]
+            nw = (mm + B - 1) // B
+            u = big & ((1 << (2 * nw * B)) - 1)
+            if sel < 0.5:
+                u = G.mul(u & ((1 << mm) - 1), (u >> mm) & ((1 << mm) - 1))
+            f = (1 << mm) | (1 << k) | (1 << l) | (1 << l1) | 1
+            if not ctx.case([fn, mm, k, l, l1, u], "ppRedPentanomial:%s" % ("m%B=0" if mm % B == 0 else "m%B!=0")):
+                continue
+            pu = lib.mkw(u, 2 * nw)
+            lib.ppRedPentanomial(pu, lib.mk(b"".join(v.to_bytes(8, "little") for v in (mm, k, l, l1))))
+            got = lib.rdw(pu, nw)
+            ctx.digest(got)
+            if got != G.mod(u, f):
+                pbad(ctx, fn, "not-reduced" if G.mod(got, f) == G.mod(u, f) else "value", {"m": mm, "k": k, "l": l, "l1": l1, "a": u, "got": got, "expected": G.mod(u, f)})
+        else:
+            nw = 128 // B
+            u = big & ((1 << 256) - 1)
+            if sel < 0.3:
+                u = G.mul(u & ((1 << 128) - 1), u >> 128)
+            elif sel < 0.4:
+                u = (1 << 256) - 1
+            elif sel < 0.5:
+                u = 1 << (128 + ti % 128)
+            if not ctx.case([fn, u], "ppRedBelt"):
+                continue
+            pu = lib.mkw(u, 2 * nw)
+            lib.ppRedBelt(pu)
+            got = lib.rdw(pu, nw)
+            ctx.digest(got)
+            f = (1 << 128) | 0x87
+            if got != G.mod(u, f):
+                pbad(ctx, fn, "value", {"a": u, "got": got, "expected": G.mod(u, f)})
+        lib.release()
+    ctx.note("pp_mod", hist)
+
+
+# irreducible polynomials of cryptographic standards (gf2.h, DSTU 4145, low-weight tables); every entry is
+# re-verified with the model's Rabin test before it is used as "irreducible"
+FIELDS = [(128, 7, 2, 1), (163, 7, 6, 3), (233, 74, 0, 0), (283, 12, 7, 5), (409, 87, 0, 0), (571, 10, 5, 2),
+          (167, 6, 0, 0), (173, 10, 2, 1), (179, 4, 2, 1), (191, 9, 0, 0), (233, 9, 4, 1), (257, 12, 0, 0),
+          (307, 8, 4, 2), (367, 21, 0, 0), (431, 5, 3, 1),
+          (192, 7, 2, 1), (256, 10, 5, 2), (320, 4, 3, 1), (384, 12, 3, 2), (512, 8, 5, 2), (64, 4, 3, 1),
+          (96, 10, 9, 6), (160, 5, 3, 2), (224, 9, 8, 3),
+          (97, 33, 0, 0), (127, 63, 0, 0), (159, 31, 0, 0), (217, 153, 0, 0), (225, 97, 0, 0),
+          (57, 25, 0, 0), (63, 31, 0, 0), (65, 33, 0, 0),
+          (71, 6, 0, 0), (79, 9, 0, 0), (81, 4, 0, 0), (84, 5, 0, 0), (71, 5, 3, 1), (73, 4, 3, 2), (89, 6, 5, 3),
+          (127, 7, 3, 1), (129, 5, 4, 1), (130, 3, 2, 1), (191, 7, 6, 4), (193, 9, 7, 4),
+          (35, 2, 0, 0), (41, 3, 0, 0), (41, 3, 2, 1), (47, 5, 4, 1), (63, 5, 4, 1)]
+
+
+def p4_poly(p4):
+    f = (1 << p4[0]) | 1
+    for t in p4[1:]:
+        if t:
+            f |= 1 << t
+    return f
+
+
+def gf2_admissible(p4, B):
+    """restrictions of ppRedTrinomial / ppRedPentanomial that gf2.h imposes on p(x)"""
+    m, k, l, l1 = p4
+    if l == 0:
+        return l1 == 0 and m % 8 != 0 and 0 < k < m and m - k >= B
+    return m > k > l > l1 > 0 and m - k >= B and k < B
+
+
+def small_irreducibles(maxdeg):
+    out = []
+    for f in range(2, 1 << (maxdeg + 1)):
+        if G.is_irreducible_bruteforce(f):
+            out.append(f)
+    return out
+
+
+def irred_need(lib, n):
+    """stack really used by ppIsIrred(a, n): h, d (n words each) + callees; ppIsIrred_deep(n) of the examined tree
+    counts only the 2n words"""
+    return 2 * n * lib.W + max(lib.ppGCD_deep(n, n), lib.ppSqrMod_deep(n))
+
+
+def unit_pp_irred(ctx):
+    """ppIsIrred, ppMinPoly, ppMinPolyMod"""
+    lib, rng, P = ctx.lib, ctx.rng, ctx.params
+    W, B = lib.W, lib.B
+    chunk, nchunks = P["chunk"], P["nchunks"]
+    hist = {}
+    padded = 0
+
+    def isirred(f, n, label):
+        nonlocal padded
+        st_decl, st_need = lib.ppIsIrred_deep(n), irred_need(lib, n) if f > 1 else 0
+        padded += st_need > st_decl
+        got = bool(lib.ppIsIrred(lib.mkw(f, n), n, lib.alloc(max(st_decl, st_need))))
+        return got
+
+    # (1) all polynomials of degree <= 10: brute-force oracle, Rabin model cross-checked
+    small = []
+    for f in range(1 << 11):
+        if f % nchunks != chunk:
+            continue
+        exp = G.is_irreducible_bruteforce(f)
+        if exp != G.is_irreducible(f):
+            raise Harness("Rabin model disagrees with brute force on %d" % f)
+        if exp:
+            small.append(f)
+        if not ctx.case(["ppIsIrred", 1, f], "ppIsIrred:deg<=10:" + ("irreducible" if exp else "reducible")):
+            continue
+        got = isirred(f, 1, "small")
+        ctx.digest(got)
+        if got != exp:
+            pbad(ctx, "ppIsIrred", "value", {"a": f, "n": 1, "got": got, "expected": exp})
+        lib.release()
+    small = [f for f in small_irreducibles(8)]
+    # (2) multi-word polynomials
+    std = [p4_poly(p4) for i, p4 in enumerate(FIELDS) if i % nchunks == chunk]
+    for f in std:
+        if not G.is_irreducible(f):
+            raise Harness("catalogue polynomial is reducible under the model: %x" % f)
+    cases = []
+    for f in std:
+        n0 = wlen(f, B)
+        cases.append((f, n0, True, "standard"))
+        cases.append((f, n0 + 1 + f % 3, True, "standard+zero-top-words"))
+        cases.append((f ^ 2 ^ 4, n0, None, "standard-perturbed"))
+        cases.append((f ^ 1, n0, False, "no-constant-term"))
+        cases.append((gsqr(f), wlen(gsqr(f), B), False, "square"))
+    for it in range(P["cases"]):
+        n = rng.randint(1, 12)
+        kind = rng.choice(["random", "random-odd", "product", "product", "small-irr", "x*f", "const"])
+        v = pp_top(rng, n, B)
+        a, b = rng.choice(small), rng.choice(small)
+        s1, s2 = rng.choice(std) if std else 7, rng.choice(std) if std else 7
+        sel = rng.random()
+        if kind == "random-odd":
+            f, exp = v | 1, None
+        elif kind == "product":
+            f, exp = G.mul(s1 if sel < 0.5 else a, s2 if sel < 0.25 else b), False
+        elif kind == "small-irr":
+            f, exp = a, True
+        elif kind == "x*f":
+            f, exp = s1 << 1, False
+        elif kind == "const":
+            f, exp = (0 if sel < 0.5 else 1), False
+        else:
+            f, exp = v, None
+        nn = max(wlen(f, B), 1) if kind != "random" and kind != "random-odd" else n
+        if kind == "const" and sel < 0.25:
+            nn = 0
+        cases.append((f, nn + (1 if sel > 0.9 else 0), exp, kind))
+    for f, n, exp, kind in cases:
+        if exp is None and f.bit_length() > 400 and rng.random() < 0.8:
+            f &= (1 << 400) - 1         # keep the model's Rabin test affordable
+            f |= 1 << 399
+            n = max(n, wlen(f, B)) if n * B < 400 else n
+        model = G.is_irreducible(f)
+        if exp is not None and exp != model:
+            raise Harness("irreducibility model contradicts the construction (%s): %x" % (kind, f))
+        if not ctx.case(["ppIsIrred", n, f], "ppIsIrred:%s:%s" % (kind, "irreducible" if model else "reducible")):
+            continue
+        bump(hist, "ppIsIrred:n=%d" % n)
+        got = isirred(f, n, kind)
+        ctx.digest(got)
+        if got != model:
+            pbad(ctx, "ppIsIrred", "value", {"a": f, "n": n, "got": got, "expected": model, "kind": kind})
+        lib.release()
+    # (3) ppMinPoly
+    ls = [0, 1, 2, 3, 5, 8, B // 2 - 1, B // 2, B // 2 + 1, B - 1, B, B + 1, 3 * B // 2, 2 * B - 1, 2 * B, 2 * B + 1, 3 * B, 4 * B + 1, 6 * B]
+    for it in range(P["cases"]):
+        l = ls[it % len(ls)] if it < 3 * len(ls) else rng.randint(0, 2 * B + B // 2)
+        if it % nchunks != chunk and it < 3 * len(ls):
+            l = rng.randint(0, B + 3)
+        mode = rng.choice(["lfsr", "lfsr", "lfsr", "random", "zero", "ones"])
+        L = rng.randint(0, l) if l else 0
+        gen = rng.getrandbits(64 * 8) & ((1 << L) - 1) | (1 << L)
+        state = rng.getrandbits(64 * 8)
+        rnd = rng.getrandbits(64 * 16)
+        garbage = rng.getrandbits(64) if rng.random() < 0.3 else 0
+        N = 2 * l
+        if mode == "lfsr":
+            seq = [(state >> i) & 1 for i in range(min(L, N))]
+            while len(seq) < N:
+                j = len(seq) - L
+                t = 0
+                for i in range(L):
+                    if (gen >> i) & 1:
+                        t ^= seq[j + i]
+                seq.append(t)
+        elif mode == "random":
+            seq = [(rnd >> i) & 1 for i in range(N)]
+        else:
+            seq = [0 if mode == "zero" else 1] * N
+        Lm, g = G.minpoly_seq(seq)
+        defined = 2 * Lm <= N
+        a = 0
+        for i, bit in enumerate(seq):            # first element = bit 2l - 1
+            if bit:
+                a |= 1 << (N - 1 - i)
+        na_hdr, na_lib = (2 * l + B - 1) // B, 2 * ((l + B - 1) // B)
+        na = max(na_hdr, na_lib)
+        if garbage and na * B > N:
+            a |= (garbage << N) & ((1 << (na * B)) - 1)
+        cls = "ppMinPoly:%s:%s%s" % (mode, "L<=l" if defined else "L>l(unspecified)", ":a-padded" if na > na_hdr else "")
+        if not ctx.case(["ppMinPoly", l, a, na], cls):
+            continue
+        bump(hist, "ppMinPoly:l%%B=%s" % ("0" if l % B == 0 else "<=B/2" if l % B <= B // 2 else ">B/2"))
+        nb = (l + 1 + B - 1) // B
+        pb_ = lib.outw(nb)
+        lib.ppMinPoly(pb_, lib.mkw(a, na), l, pp_stack(lib, "ppMinPoly", l))
+        got = lib.rdw(pb_, nb)
+        if defined:
+            ctx.digest(got)
+            if got != g:
+                pbad(ctx, "ppMinPoly", "value", {"l": l, "a": a, "got": got, "expected": g, "complexity": Lm})
+        lib.release()
+    # (4) ppMinPolyMod
+    for it in range(P["cases"] // 2):
+        n = rng.choice([1, 1, 1, 2, 2, 3, 4])
+        kind = rng.choice(["irreducible", "irreducible", "reducible", "reducible", "reducible-square", "x^k"])
+        dsel = rng.random()
+        r1, r2 = rng.getrandbits(64 * 4), rng.getrandbits(64 * 4)
+        s1, a0 = rng.choice(small), rng.choice(small)
+        si = rng.randrange(1 << 20)
+        if kind == "irreducible":
+            cands = [f for f in std if wlen(f, B) <= 4] + small
+            md = cands[si % len(cands)] if dsel < 0.7 else G.mul(1, s1)
+            if md.bit_length() - 1 < 2:
+                md = 0b111
+        elif kind == "reducible":
+            dg = 2 + int(dsel * (min(n * B, 96) - 2))
+            md = (r1 & ((1 << dg) - 1)) | (1 << dg)
+            if G.is_irreducible(md):
+                md ^= 1 if md & 1 else 3
+                if md.bit_length() - 1 < 2:
+                    md = 0b110
+        elif kind == "reducible-square":
+            md = gsqr(s1) if dsel < 0.5 else G.mul(s1, G.mul(s1, a0))
+        else:
+            md = 1 << (2 + si % min(n * B - 2, 70))
+        dm = md.bit_length() - 1
+        n = wlen(md, B)
+        a = r2 & ((1 << dm) - 1)
+        if a == 0:
+            a = 1 + (si & 1)               # a = 0: deg(a) is SIZE_MAX in pp.h's convention, not < deg(mod)
+        a &= (1 << dm) - 1
+        if a == 0:
+            a = 1
+        irr = G.is_irreducible(md)
+        exp = G.minpoly_mod(a, md)
+        if irr and a and not G.is_irreducible(exp):
+            raise Harness("minpoly_mod model: minimal polynomial over a field must be irreducible")
+        if not ctx.case(["ppMinPolyMod", n, a, md], "ppMinPolyMod:%s" % ("irreducible-mod" if irr else "reducible-mod")):
+            continue
+        pb_ = lib.outw(n)
+        lib.ppMinPolyMod(pb_, lib.mkw(a, n), lib.mkw(md, n), n, pp_stack(lib, "ppMinPolyMod", n))
+        got = lib.rdw(pb_, n)
+        ctx.digest(got)
+        if got != exp:
+            pbad(ctx, "ppMinPolyMod", "value:irreducible-mod" if irr else "value:reducible-mod",
+                 {"a": a, "mod": md, "n": n, "got": got, "expected": exp})
+        lib.release()
+    ctx.note("pp_irred", hist)
+    ctx.note("ppIsIrred_stack_padded_calls", padded)
+
+
 def jobs(tier, scale=1.0):
     q = tier == "quick"
     J = []
@@ -1148,6 +1720,14 @@ def jobs(tier, scale=1.0):
     for k in range(nz):
         J.append({"unit": "c05_pp:unit_zm", "params": {"chunk": k, "nchunks": nz, "cases": sc(1500 if q else 12000), "tuples": 3 if q else 5}})
     J.append({"unit": "c05_pp:unit_zm_edge", "params": {}})
+    ns = 4 if q else 16
+    for k in range(ns):
+        J.append({"unit": "c05_pp:unit_pp_small", "params": {"chunk": k, "nchunks": ns, "maxdeg": 8 if q else 10}})
+    ni = 2 if q else 8
+    for k in range(ni):
+        J.append({"unit": "c05_pp:unit_pp_irred", "params": {"chunk": k, "nchunks": ni, "cases": sc(400 if q else 2500)}})
+    for k in range(2 if q else 4):
+        J.append({"unit": "c05_pp:unit_pp_mod", "params": {"chunk": k, "cases": sc(5000 if q else 50000)}})
     for k in range(2 if q else 4):
         J.append({"unit": "c05_pp:unit_pp_arith", "params": {"chunk": k, "cases": sc(6000 if q else 60000)}})
     return J
